@@ -164,3 +164,33 @@ def loop_parts(tree, qualname, case_value=None, nth=0):
         if not isinstance(st, (ast.Assign, ast.AnnAssign, ast.AugAssign)):
             raise SliceMismatch("statement before the loop is not an assignment: %s" % type(st).__name__)
     return pre, loop, post
+
+
+def loop_names(pre, loop, post, global_names):
+    """Names the three parts of a loop block use, so that a harness can address them by role instead of by spelling:
+    state  = names assigned before the loop (in order),
+    free_pre  = names the assignments before the loop read that are neither assigned there nor module globals/builtins,
+    free_loop = names the test, body and return read that are neither state, nor bound inside the loop, nor globals."""
+    import builtins
+    known = set(global_names) | set(dir(builtins))
+
+    def reads(nodes):
+        out = []
+        for st in nodes:
+            for n in ast.walk(st):
+                if isinstance(n, ast.Name) and isinstance(n.ctx, ast.Load) and n.id not in out:
+                    out.append(n.id)
+        return out
+
+    def writes(nodes):
+        out = []
+        for st in nodes:
+            for n in ast.walk(st):
+                if isinstance(n, ast.Name) and isinstance(n.ctx, ast.Store) and n.id not in out:
+                    out.append(n.id)
+        return out
+    state = writes(pre)
+    free_pre = [n for n in reads(pre) if n not in state and n not in known]
+    inner = writes([loop.test] + list(loop.body))
+    free_loop = [n for n in reads([loop.test] + list(loop.body) + list(post)) if n not in state and n not in inner and n not in known]
+    return {"state": state, "free_pre": free_pre, "free_loop": free_loop}
